@@ -6,6 +6,7 @@ same history for the Lean heap model (`QV.Store`, driver ops `c11.run` / `c20.ru
 Tokens: contents of a tensor -> small integer by hashing its bytes with first-occurrence numbering
 (0 = all-zero bytes, 1,2,3 = the default X, Y, Z unitaries); metadata values -> tokens of their deep structure.
 """
+import contextlib
 import copy
 import os
 import pickle
@@ -177,9 +178,18 @@ class Real:
 
     ctx = None   # set by run_history: input-distribution counters of the argument forms
 
-    def __init__(self, tseed):
-        self.tmp = tempfile.mkdtemp(prefix="qv_store_")
-        assert not self.tmp.startswith("/repo") and not self.tmp.startswith("/verif")
+    def __init__(self, tseed, rel=False):
+        # rel (case key "rel"): the caller writes every location as a RELATIVE path and changes his working directory between
+        # creating a ModelSaver and training with it (see `in_dir`, `loc_arg`); the files of the history still are <tmp>/file<p>.pt
+        self.rel = bool(rel)
+        self.base = tempfile.mkdtemp(prefix="qv_store_")
+        assert not self.base.startswith("/repo") and not self.base.startswith("/verif")
+        self.tmp = self.base
+        if self.rel:
+            self.tmp = os.path.join(self.base, "w")
+            self.elsewhere = os.path.join(self.base, "elsewhere", "deeper")
+            os.makedirs(self.tmp)
+            os.makedirs(self.elsewhere)
         self.tok = Tokens()
         self.gen = torch.Generator()
         self.gen.manual_seed(int(tseed))
@@ -197,10 +207,28 @@ class Real:
         self.events = []
 
     def close(self):
-        shutil.rmtree(self.tmp, ignore_errors=True)
+        shutil.rmtree(self.base, ignore_errors=True)
 
     def path(self, p):
         return os.path.join(self.tmp, f"file{p}.pt")
+
+    @contextlib.contextmanager
+    def in_dir(self, d):
+        """relative-path histories only: the caller's working directory is `d` while the body runs (restored afterwards)"""
+        if not self.rel:
+            yield
+            return
+        old = os.getcwd()
+        os.chdir(d)
+        try:
+            yield
+        finally:
+            os.chdir(old)
+
+    def loc_arg(self, p):
+        """the location of the history's file p as the caller writes it: an absolute path, or (relative-path histories) a path
+        relative to the working directory at the time of the call"""
+        return os.path.relpath(self.path(p)) if self.rel else self.path(p)
 
     # ------------------------------------------------------------ locations: a "file" of the history is (physical file, start position)
     # `location` of save / load / autoload is "str or file": an open file object stands for the data that starts at its CURRENT position
@@ -595,7 +623,8 @@ class Real:
                 if op.get("fobj"):
                     self.save_to_fileobj(op, md)
                 else:
-                    self.models[op["slot"]].save(self.path(op["path"]), md)
+                    with self.in_dir(self.elsewhere if self.rel else None):
+                        self.models[op["slot"]].save(self.loc_arg(op["path"]), md)
                     self.loc.pop(op["path"], None)
             elif t == "saverSave":
                 # ModelSaver is driven through its PUBLIC interface only: constructor + the callback event `on_epoch_end(nn_state, epoch)`
@@ -605,10 +634,17 @@ class Real:
                 # metadata_only as truthy / falsy objects, by keyword or all positionally
                 per, si = fm.i("ModelSaver period", op.get("period", 1), af.PERIOD_INT), fm.f("save_initial", False)
                 mo = fm.f("metadata_only", bool(op["metadataOnly"]))
+                # relative-path histories: the saver is CREATED while the working directory is <base> with folder_path "w" (= <base>/w = tmp),
+                # and USED (every period) after the caller has moved to another directory: the documented files are still <base>/w/file<epoch>.pt
+                folder = "w" if self.rel else self.tmp
                 if fm.pos("ModelSaver(period, folder_path, file_name, save_initial, metadata, metadata_only)"):
-                    mk = lambda md_arg: ModelSaver(per, self.tmp, "file{}.pt", si, md_arg, mo)  # noqa: E731
+                    mk0 = lambda md_arg: ModelSaver(per, folder, "file{}.pt", si, md_arg, mo)  # noqa: E731
                 else:
-                    mk = lambda md_arg: ModelSaver(per, self.tmp, "file{}.pt", save_initial=si, metadata=md_arg, metadata_only=mo)  # noqa: E731
+                    mk0 = lambda md_arg: ModelSaver(per, folder, "file{}.pt", save_initial=si, metadata=md_arg, metadata_only=mo)  # noqa: E731
+
+                def mk(md_arg):
+                    with self.in_dir(self.base):
+                        return mk0(md_arg)
                 if op["src"] == "dict":
                     key = ("dict", op["mdslot"], op["metadataOnly"], op.get("period", 1), op.get("af"))
                     if key not in self.savers or self.savers[key][1] is not self.metas[op["mdslot"]]:
@@ -620,22 +656,25 @@ class Real:
                     saver = mk(lambda s, e: copy.deepcopy(d))
                 else:
                     saver = mk(None)
-                saver.on_epoch_end(self.models[op["slot"]], op["path"])
+                with self.in_dir(self.elsewhere if self.rel else None):
+                    saver.on_epoch_end(self.models[op["slot"]], op["path"])
                 self.loc.pop(op["path"], None)   # ModelSaver writes to a path: the history's file is now that file, from its start
             elif t == "load":
                 if op.get("fobj") or self.must_be_fileobj(op["path"]):
                     with self.open_location(op["path"], op.get("io")) as fh:
                         self.models[op["slot"]].load(fh)
                 else:
-                    self.models[op["slot"]].load(self.path(op["path"]))
+                    with self.in_dir(self.elsewhere if self.rel else None):
+                        self.models[op["slot"]].load(self.loc_arg(op["path"]))
             elif t == "autoload":
                 m["rand"] = []
                 if op.get("fobj") or self.must_be_fileobj(op["path"]):
                     with self.open_location(op["path"], op.get("io")) as fh:
                         st = KINDS[op["kind"]].autoload(fh, gpu=fm.gpu())
                 else:
-                    loc, g = self.path(op["path"]), fm.gpu()
-                    st = KINDS[op["kind"]].autoload(loc, g) if fm.pos("autoload(location, gpu)") else KINDS[op["kind"]].autoload(loc, gpu=g)
+                    with self.in_dir(self.elsewhere if self.rel else None):
+                        loc, g = self.loc_arg(op["path"]), fm.gpu()
+                        st = KINDS[op["kind"]].autoload(loc, g) if fm.pos("autoload(location, gpu)") else KINDS[op["kind"]].autoload(loc, gpu=g)
                 self.models[op["slot"]] = st
             else:
                 raise AssertionError(t)
@@ -782,8 +821,10 @@ def admissible(real, op):
 def run_history(ctx, case, drv_op, hooks, level_fn):
     """execute case["plan"] on the real objects (with the hooks' oracles), then on the model; compare after every op.
     hooks.before(real, op) -> pre ; hooks.after(real, op, pre, err, world) ; level_fn(op, err) -> 'property'|'aux'"""
-    real = Real(case["tseed"])
+    real = Real(case["tseed"], rel=case.get("rel"))
     real.ctx = ctx
+    if real.rel:
+        ctx.count("histories_with_relative_paths_and_chdir_between_saver_construction_and_use")
     try:
         mops, obs, kept = [], [], []
         for op in case["plan"]:
@@ -796,7 +837,7 @@ def run_history(ctx, case, drv_op, hooks, level_fn):
                 hooks.after(real, op, pre, err, w)
             except Exception as e:  # the implementation left the state in a shape the oracle cannot even inspect
                 ctx.oracle("property oracle could not be evaluated on the implementation's result", False,
-                           {"plan": case["plan"], "tseed": case["tseed"], "op": op}, detail={"exception": repr(e)[:300]},
+                           {"plan": case["plan"], "tseed": case["tseed"], "op": op, **({"rel": True} if case.get("rel") else {})}, detail={"exception": repr(e)[:300]},
                            sig=f"{op['t']}/oracle-crash")
             ctx.count(f"op={op['t']}")
             if mop is None:  # harness-only operation (the caller creating one of his own objects): no model step
@@ -810,7 +851,7 @@ def run_history(ctx, case, drv_op, hooks, level_fn):
             for k, ((err, w), mw) in enumerate(zip(obs, res)):
                 op = kept[k]
                 lvl = level_fn(op, err)
-                cs = {"plan": case["plan"], "tseed": case["tseed"], "step": k, "op": op}
+                cs = {"plan": case["plan"], "tseed": case["tseed"], "step": k, "op": op, **({"rel": True} if case.get("rel") else {})}
                 sig = f"{op['t']}"
                 # whether the operation is refused — not WHICH exception type refuses it (no property names one)
                 ctx.point(f"{op['t']}.refused", lvl if op["t"] in ("save", "saverSave", "train", "constructFrom") else "aux",
